@@ -112,23 +112,38 @@ def reader_tokens(prog, ty):
     for n in core.walk_fn(rf, into_closures=False):
         if n.get("k") == "Loop" or core.as_for(n) is not None:
             looped = True
-    for st in sorted(core.walk_lets(rf.body), key=lambda s_: _spk(s_["pat"])):
+    # binders of a piece: `let x = ..next()..;` and `if let / while let Some(x) = ..next()..`
+    binders = []
+    for st in core.walk_lets(rf.body):
         init = st.get("init")
         if init is None or core.strip(init).get("k") == "Closure":
             continue
+        binders.append((st["pat"], init))
+    for n in core.walk_fn(rf, into_closures=False):
+        if n.get("k") == "LetExpr":
+            binders.append((n["pat"], n["init"]))
+    alias = {}
+    for pat, init in sorted(binders, key=lambda b: _spk(b[1])):
         k = sum(1 for y in core.walk(init, into_closures=False) if takes_piece(y))
+        lids = _pat_lids(pat)
         if k == 0:
+            # `let time = time?;` — the same piece under a new binding
+            src = sorted({y["lid"] for y in core.walk(init) if y.get("k") == "Path" and y.get("res") == "local" and (y["lid"] in order or y["lid"] in alias)})
+            if len(lids) == 1 and len(src) == 1:
+                alias[lids[0]] = alias.get(src[0], src[0])
             continue
-        if k > 1 or st["pat"].get("k") != "Binding":
+        if k > 1 or len(lids) != 1:
             raise sym.Unsupported("one statement takes several pieces")
-        order.append(st["pat"]["lid"])
+        order.append(lids[0])
     # a stray next() outside a let (`match pieces.next() { None => {}, Some(_) => return Err }` is the end-of-input test)
     # the struct built from the pieces
-    structs = [x for x in core.walk_fn(rf) if x.get("k") == "Struct" and x.get("def") and not x["def"].startswith("core::") and any(core.strip(y).get("lid") in order for f in x["fields"] for y in core.walk(f["e"]))]
+    structs = [x for x in core.walk_fn(rf) if x.get("k") == "Struct" and x.get("def") and not x["def"].startswith("core::") and any(core.strip(y).get("lid") in order or core.strip(y).get("lid") in alias for f in x["fields"] for y in core.walk(f["e"]))]
     if not structs:
         raise sym.Unsupported("no struct is built from the pieces")
     lit = structs[0]
     env = {lid: ("tok", i) for i, lid in enumerate(order)}
+    for a, root in alias.items():
+        env[a] = ("tok", order.index(root))
     I = wire.WireInterp(prog, prims=[], depth=4)
     val = I.eval(lit, dict(env))
     fmap = {}
@@ -143,6 +158,20 @@ def reader_tokens(prog, ty):
             fmap[path] = ("other", sym.term_str(t, 3))
     flat(val, ())
     return order, sep, filt, ptype, fmap, looped, lit
+
+
+def _pat_lids(p):
+    out = []
+    stack = [p]
+    while stack:
+        x = stack.pop()
+        if isinstance(x, dict):
+            if x.get("k") == "Binding":
+                out.append(x["lid"])
+            stack.extend(v for v in x.values() if isinstance(v, (dict, list)))
+        elif isinstance(x, list):
+            stack.extend(x)
+    return out
 
 
 def _spk(n):
